@@ -78,6 +78,56 @@ def rule_T9(ctx, func, tracker, rid='T9'):
                'member set survive (no reset on some path)')
 
 
+def rule_S2(ctx, rid='S2'):
+    ctx.rule(rid, 'refusal test of split: the summed volume of the two children is compared with '
+             'the volume of the ellipsoid being split (the record at `index`), and the may-split '
+             'flag uses the same minimum-size rule wherever it is computed')
+    from ..agree import _depends
+    f = ctx.program.func('Union.split')
+    cfg = cfg_of(f)
+    n = 0
+    for t in cfg.nodes:
+        if t.kind != 'test':
+            continue
+        for cmp_ in [x for x in ast.walk(t.expr) if isinstance(x, ast.Compare)
+                     and len(x.ops) == 1]:
+            sides = [cmp_.left, cmp_.comparators[0]]
+            dep = [_depends(cfg, t.id, s_, lambda e: isinstance(e, ast.Name) and
+                            e.id == 'new_bounds') or 'new_bounds' in unparse(s_) for s_ in sides]
+            if not any(dep) or all(dep):
+                continue
+            other = sides[1] if dep[0] else sides[0]
+            n += 1
+            txt = unparse(other)
+            ok = txt in ('self.bounds[index].log_v', 'self.log_v_all[index]')
+            ctx.ob(rid, 'Union.split:children-vs-parent-volume', ok, f.where(t.ast),
+                   'the children are compared with the volume of the ellipsoid being split'
+                   if ok else 'the children are compared with `%s`, not with the volume of the '
+                   'ellipsoid being split: a split that enlarges it can be accepted' % txt)
+    ctx.require(n >= 1, 'Union.split: volume comparison of the children not found')
+    # the minimum-size rule of the may-split flag
+    factors = {}
+    for q in ('Union.compute', 'Union.split'):
+        g = ctx.program.func(q)
+        for x in ast.walk(g.node):
+            if isinstance(x, ast.Compare) and len(x.ops) == 1 and \
+                    isinstance(x.ops[0], (ast.Lt, ast.LtE)) and \
+                    isinstance(x.left, ast.Call) and dotted(x.left.func) == 'len' and \
+                    'n_points_min' in unparse(x.comparators[0]):
+                r = x.comparators[0]
+                k = 1
+                if isinstance(r, ast.BinOp) and isinstance(r.op, ast.Mult):
+                    for side in (r.left, r.right):
+                        if isinstance(side, ast.Constant):
+                            k = side.value
+                factors.setdefault((k, type(x.ops[0]).__name__), []).append(q)
+    ok = len(factors) == 1
+    ctx.ob(rid, 'Union:may-split-rule-agrees', ok, ctx.program.func('Union.compute').where(),
+           'compute() and split() flag an ellipsoid as unsplittable by the same size rule %s'
+           % list(factors) if ok else
+           'the may-split flag uses different size rules: %s' % factors)
+
+
 def rule_INIT(ctx, rid='L0'):
     ctx.rule(rid, 'INIT-all: the constructor initialises every member of the group, each with '
              'one entry for the single initial ellipsoid')
@@ -112,6 +162,7 @@ def run(ctx):
         if q == 'Union.split':
             rule_L6(ctx, f, tr)
     rule_INIT(ctx)
+    rule_S2(ctx)
     rule_T1(ctx, 'Union.split', {'bounds', 'points_bounds', 'log_v_all'}, false_return=True)
     rule_T1(ctx, 'Union.trim', {'bounds', 'points_bounds', 'log_v_all'}, false_return=True)
     ctx.extra['paths_compared'] = total
